@@ -150,6 +150,8 @@ type fnCtx struct {
 	inlineFailed bool
 	specErrors   []string
 	lemmaName    string
+	boundCalls   map[int]bool
+	boundAfters  map[int]bool
 	framedBases  map[string]bool
 	allowed      map[string][]string
 	curLoop      *loopInfo
@@ -241,7 +243,7 @@ func (fc *fnCtx) frameAllowed() map[string][]string {
 	if c == nil || t.entry == nil {
 		return t.allowed
 	}
-	env := &SpecEnv{fc: t, st: t.entry, vars: t.params, bound: map[string]Val{}, pkg: t.fn.Package()}
+	env := &SpecEnv{fc: t, st: t.entry, vars: t.params, bound: map[string]Val{}, pkg: t.fn.Package(), lets: letsOf(c)}
 	for _, m := range c.Modifies {
 		locs, err := t.modLocs(env, m)
 		if err != nil {
@@ -1988,6 +1990,7 @@ func (fc *fnCtx) afterStore(st *State, a *ssa.Alloc) {
 		if k != as.K {
 			continue
 		}
+		t.boundAfters[i] = true
 		env := fc.specEnv(st, nil)
 		g, err := env.goal(as.Assert.Expr)
 		if err != nil {
